@@ -111,20 +111,39 @@ func main() {
 	var mu sync.Mutex
 	var results []*sym.CaseResult
 	var wg sync.WaitGroup
-	jobs := make(chan job, 100000)
+	// work list: a stack (depth first keeps the number of pending shape cases small), unbounded
+	var queue []job
 	pending := 0
 	var pmu sync.Mutex
+	qcond := sync.NewCond(&pmu)
+	qclosed := false
 	done := make(chan struct{})
 	addJob := func(j job) {
 		pmu.Lock()
 		pending++
+		queue = append(queue, j)
 		pmu.Unlock()
-		jobs <- j
+		qcond.Signal()
+	}
+	getJob := func() (job, bool) {
+		pmu.Lock()
+		defer pmu.Unlock()
+		for len(queue) == 0 && !qclosed {
+			qcond.Wait()
+		}
+		if len(queue) == 0 {
+			return job{}, false
+		}
+		j := queue[len(queue)-1]
+		queue = queue[:len(queue)-1]
+		return j, true
 	}
 	finishJob := func() {
 		pmu.Lock()
 		pending--
 		if pending == 0 {
+			qclosed = true
+			qcond.Broadcast()
 			close(done)
 		}
 		pmu.Unlock()
@@ -147,7 +166,11 @@ func main() {
 			defer wg.Done()
 			var solvers []*smt.Solver
 			cur := ""
-			for j := range jobs {
+			for {
+				j, ok := getJob()
+				if !ok {
+					break
+				}
 				tc := j.tc
 				names := tc.Solvers
 				if len(names) == 0 {
@@ -255,7 +278,6 @@ func main() {
 		os.Exit(2)
 	}
 	<-done
-	close(jobs)
 	wg.Wait()
 
 	// ------------------------------------------------------------------ aggregate
